@@ -279,30 +279,36 @@ theorem C02_exactly_once (s : Srv) (k : Nat) (u : Str) (raw : Str) (c : Chan) (p
 
 /-- **C08.** With a modulator: any MESSAGE of a BROADCAST step carries exactly the payload the modulator
     declared valid *for this request* (the altered one if it altered), and a rejected / failed validation
-    produces no MESSAGE at all, only the ERROR with the broadcast's id (which closes the publisher). -/
+    or a lost modulator link produces no MESSAGE at all, only the ERROR with the broadcast's id (which closes the publisher). -/
 theorem C08_gate (s : Srv) (hmod : s.cfg.hasMod = true) (k : Nat) (u : Str) (id : Nat) (raw : Str) (q : Option Nat)
     (p : Payload) (env : Env) :
     (∀ e ∈ (doBroadcast s k u id raw q p env).2, e.frame.isMessage = true →
         (env.verdict = .valid ∧ ∃ f c, e.frame = .message f c p) ∨
         (∃ p', env.verdict = .altered p' ∧ ∃ f c, e.frame = .message f c p')) ∧
-    ((env.verdict = .invalid ∨ env.verdict = .failed) →
+    ((env.verdict = .invalid ∨ env.verdict = .failed ∨ env.down = true) →
         (∀ e ∈ (doBroadcast s k u id raw q p env).2, e.frame.isMessage = false) ∧
         (closedWithErrorId k id (doBroadcast s k u id raw q p env).2 ∨ p.isEmpty = true ∨ q.any (· > 1) = true ∨ id = 0
           ∨ p.length > s.cfg.maxPayload ∨ Id.parseChannelId raw = none)) := by
   constructor
   · intro e he hm
     obtain ⟨h, c, p', t, _, _, _, _, _, _, _, hfr, hg⟩ := C01_confinement_step s k u id raw q p env e he hm
-    rcases payloadGate_ok hg with ⟨hno, _⟩ | ⟨_, ⟨hv, hpp⟩ | hv⟩
+    rcases payloadGate_ok hg with ⟨hno, _⟩ | ⟨_, _, ⟨hv, hpp⟩ | hv⟩
     · rw [hmod] at hno; cases hno
     · subst hpp; exact Or.inl ⟨hv, _, _, hfr⟩
     · exact Or.inr ⟨p', hv, _, _, hfr⟩
   · intro hbad
     have hgate : ∀ p', payloadGate s p env ≠ .ok p' := by
       intro p' h
-      rcases payloadGate_ok h with ⟨hno, _⟩ | ⟨_, ⟨hv, _⟩ | hv⟩
+      rcases payloadGate_ok h with ⟨hno, _⟩ | ⟨_, hup, ⟨hv, _⟩ | hv⟩
       · rw [hmod] at hno; cases hno
-      · rcases hbad with h' | h' <;> rw [hv] at h' <;> cases h'
-      · rcases hbad with h' | h' <;> rw [hv] at h' <;> cases h'
+      · rcases hbad with h' | h' | h'
+        · rw [hv] at h'; cases h'
+        · rw [hv] at h'; cases h'
+        · rw [hup] at h'; cases h'
+      · rcases hbad with h' | h' | h'
+        · rw [hv] at h'; cases h'
+        · rw [hv] at h'; cases h'
+        · rw [hup] at h'; cases h'
     constructor
     · intro e he
       cases hm : e.frame.isMessage
@@ -335,7 +341,9 @@ theorem C08_gate (s : Srv) (hmod : s.cfg.hasMod = true) (k : Nat) (u : Str) (id 
                 unfold payloadGate at hg
                 rw [hmod] at hg
                 simp only [if_true] at hg
-                split at hg <;> cases hg <;> rfl
+                split at hg
+                · cases hg; rfl
+                · split at hg <;> cases hg <;> rfl
               unfold closedWithErrorId fail
               simp only [hr, Bool.false_eq_true, if_false]
               exact ⟨_, List.mem_cons_self, rfl, rfl, r, rfl⟩
